@@ -70,6 +70,13 @@ INTERPLAY = [
     "try:\n    x.a\nexcept (KeyError, ValueError):\n    t = y.dflt\nelse:\n    u = 1\nfinally:\n    w = 2\nt.b\nu.c\nw.d",
     "try:\n    return q[x.key]\nexcept KeyError:\n    value = f(x)\nq[x.key] = value\nreturn value",
     "for t in x:\n    try:\n        pass\n    except KeyError:\n        u = t\n    u.in_loop",
+    # awaited operands under an attribute / subscript / star (async functions)
+    "async_marker = 1\nt = (await p.m(y.z)).r", "async_marker = 1\nreturn (await f(x.q))[0].s", "async_marker = 1\ng(*(await h(x.w)))",
+    "async_marker = 1\nt = (await x.fut).res.val", "async_marker = 1\n(await p.lock(y.key)).owner = z.me",
+    # nested definitions and lambdas with every kind of parameter, each loaded in the nested body
+    "def inner(*args, **kwargs):\n    return f(*args, **kwargs)\ninner(x)", "t = lambda *a, k=1, **kw: (a.la, k.lk, kw.lkw)\nt(x)",
+    "def inner(p0, /, p1, *, ko, kd=2):\n    return p0.x0, p1.x1, ko.xo, kd.xd\ninner(x, y, ko=z)",
+    "async def inner(*rest, flag=False):\n    return rest.r, flag.f\ninner(x)", "return (lambda *vs, **ks: (vs, ks))(x)",
 ]
 
 # a second module environment: local callables that reuse the names of plugin-analysed builtins
